@@ -203,6 +203,7 @@ func genSSOWorld(t *rapid.T, o worldOpts) world.Spec {
 			sp.EntityID = fmt.Sprintf(rapid.SampledFrom([]string{"https://sp%d.example/md?x=1&y=2", "urn:example:sp%d", "https://sp%d.example/metadata/", "https://SP%d.example/metadata"}).Draw(t, "entityform"), i)
 		}
 		sp.ACS = genACSList(t, i, o.minACS, o.maxACS, o.bindings, o.oddLocations)
+		sp.WantAssertionsSigned = rapid.SampledFrom([]string{"", "", "", "true", "false", "0", "1"}).Draw(t, "wantassertionssigned")
 		if o.signingFlags {
 			sp.AuthnRequestsSigned = rapid.SampledFrom([]string{A, A, "false", "0", "true", "1"}).Draw(t, "spsigned")
 			if rapid.IntRange(0, 5).Draw(t, "nocert") == 0 {
